@@ -204,21 +204,44 @@ func c24Emitted(base int64, writes []c24Write, batches []c24Batch, groups []int)
 	return strings.Join(parts, "|")
 }
 
-func c24WaitDrained(got *[]c24Batch, mu *sync.Mutex, lastSeq int64, any bool) bool {
-	deadline := time.Now().Add(20 * time.Second)
+// c24WaitDrained waits until the consumer has received as many objects as were written and
+// (when the last write carried no objects) a batch numbered at least lastSeq; it never
+// relies on sequence numbers alone, so a wrong batch number cannot make it spin. After
+// the first time-out in a run later waits are short: the implementation is evidently
+// not draining and the failure has been recorded.
+var c24DrainBroken atomic.Bool
+
+func c24WaitDrained(got *[]c24Batch, mu *sync.Mutex, lastSeq int64, wantObjs int, lastEmpty bool) bool {
+	limit := 20 * time.Second
+	if c24DrainBroken.Load() {
+		limit = 300 * time.Millisecond
+	}
+	deadline := time.Now().Add(limit)
+	var countOK time.Time
 	for time.Now().Before(deadline) {
 		mu.Lock()
-		n := len(*got)
+		n, objs := len(*got), 0
 		var s int64
+		for _, b := range *got {
+			objs += len(b.objs)
+		}
 		if n > 0 {
 			s = (*got)[n-1].seq
 		}
 		mu.Unlock()
-		if !any || (n > 0 && s >= lastSeq) {
-			return true
+		if objs >= wantObjs {
+			if !lastEmpty || (n > 0 && s >= lastSeq) {
+				return true
+			}
+			if countOK.IsZero() {
+				countOK = time.Now()
+			} else if time.Since(countOK) > 250*time.Millisecond {
+				return true // trailing object-less writes: give their batch a moment, then judge what arrived
+			}
 		}
 		time.Sleep(200 * time.Microsecond)
 	}
+	c24DrainBroken.Store(true)
 	return false
 }
 
@@ -284,10 +307,15 @@ func TestVerifC24(t *testing.T) {
 		ops = append(ops, "flush", "settle")
 		out = append(out, "ok", "ok")
 		var lastSeq int64
+		wantObjs, lastEmpty := 0, false
 		if len(writes) > 0 {
 			lastSeq = writes[len(writes)-1].seq
+			lastEmpty = len(writes[len(writes)-1].objs) == 0
 		}
-		drained := c24WaitDrained(got, mu, lastSeq, len(writes) > 0)
+		for _, w := range writes {
+			wantObjs += len(w.objs)
+		}
+		drained := c24WaitDrained(got, mu, lastSeq, wantObjs, lastEmpty)
 		if len(writes) == 0 {
 			time.Sleep(2 * time.Millisecond)
 		}
@@ -440,12 +468,15 @@ func TestVerifC24(t *testing.T) {
 		wg.Wait()
 		q.Flush()
 		var lastSeq int64
+		wantObjs, lastEmpty := 0, false
 		for _, w := range writes {
 			if w.seq > lastSeq {
 				lastSeq = w.seq
+				lastEmpty = len(w.objs) == 0
 			}
+			wantObjs += len(w.objs)
 		}
-		drained := c24WaitDrained(got, mu, lastSeq, true)
+		drained := c24WaitDrained(got, mu, lastSeq, wantObjs, lastEmpty)
 		close(stop)
 		<-cdone
 		waiters.Wait()
